@@ -387,9 +387,11 @@ func runLookaheadKept(p *Program, r *RuleResult) {
 				}
 				return false
 			}
-			seen := map[*ssa.BasicBlock]bool{}
-			var scan func(b *ssa.BasicBlock, start int)
-			scan = func(b *ssa.BasicBlock, start int) {
+			// seen: 1 = entered with the rune known classified on the entering edge, 2 = entered
+			// without (the weaker state; a block is walked again when it is reached that way)
+			seen := map[*ssa.BasicBlock]int{}
+			var scan func(b *ssa.BasicBlock, start int, entryClassified bool)
+			scan = func(b *ssa.BasicBlock, start int, entryClassified bool) {
 				ins := view.Instrs(b)
 				for k := start; k < len(ins); k++ {
 					if disposes(ins[k]) {
@@ -399,7 +401,7 @@ func runLookaheadKept(p *Program, r *RuleResult) {
 						// a skipping function reads on: the rune is dropped. Either it was
 						// classified (a run of one character class is skipped), or the function
 						// drops whatever comes: then it must be a delimited skipper (below)
-						if !isClassifiedAt(b) {
+						if !isClassifiedAt(b) && !entryClassified {
 							if _, seen := unconditionalDrop[fn]; !seen {
 								unconditionalDrop[fn] = p.instrPos(c)
 							}
@@ -409,13 +411,7 @@ func runLookaheadKept(p *Program, r *RuleResult) {
 					if c, ok := ins[k].(*ssa.Call); ok && c.Common().StaticCallee() == ri.Read && tokenFn {
 						// skipping a class of characters in place: the rune was classified and
 						// the function reads on (`for isWhitespace(ch) { ch = s.read() }`)
-						skipped := false
-						for _, cl := range classified {
-							if view.holdsAt(b, cl, factTrue) {
-								skipped = true
-							}
-						}
-						if skipped {
+						if isClassifiedAt(b) || entryClassified {
 							return
 						}
 						bads = append(bads, bad{p.instrPos(c), "the function reads again at " + p.instrPos(c) + " with the rune neither put back, matched, nor handed on"})
@@ -440,14 +436,30 @@ func runLookaheadKept(p *Program, r *RuleResult) {
 							live = true
 						}
 					}
-					if !live || exactOnEdge(b, si) || seen[s] {
+					if !live || exactOnEdge(b, si) {
 						continue
 					}
-					seen[s] = true
-					scan(s, 0)
+					// facts of the edge itself: a loop header loses them in the meet with
+					// its entry edge, but the rune dropped on the back edge was classified
+					ef := view.edgeFacts(view.FactsAt(b), b, si)
+					cls := entryClassified || isClassifiedAt(b)
+					for _, cl := range classified {
+						if ef[fact{cl, factTrue}] {
+							cls = true
+						}
+					}
+					state := 2
+					if cls {
+						state = 1
+					}
+					if seen[s] >= state {
+						continue
+					}
+					seen[s] = state
+					scan(s, 0, cls)
 				}
 			}
-			scan(rd.Block(), indexIn(rd.Block(), rd)+1)
+			scan(rd.Block(), indexIn(rd.Block(), rd)+1, false)
 			if len(bads) == 0 {
 				r.add(fnName(fn), construct, Holds, p.instrPos(rd), "on every path the rune is put back, matched exactly, handed on, or left to a skipping function after being classified")
 			} else {
